@@ -41,7 +41,7 @@ def cases(tier, seed):
         out.append({'ps': ps, 'bp': bp, 'fp': fp, 'mode': 'lengths', 'seed': seed})
     for g in ((1024, 10, 1024), (1024, 1, 128), (64, 4, 40)):
         out.append({'ps': g[0], 'bp': g[1], 'fp': g[2], 'mode': 'realistic', 'seed': seed})
-    nf = 6 if tier == 'quick' else 40
+    nf = 12 if tier == 'quick' else 40
     for i in range(nf):
         ps, bp, fp = rnd.choice(geos)
         out.append({'ps': ps, 'bp': bp, 'fp': fp, 'mode': 'faults', 'seed': seed * 1000 + i})
